@@ -412,7 +412,7 @@ pub fn run_case(case: &Value, trace: &mut Trace) {
         waiter = Some(spawn_waiter(daemon_opt.take().unwrap(), tx.clone()));
         std::thread::sleep(Duration::from_millis(5));
     }
-    let mut caller_threads: Vec<std::thread::JoinHandle<()>> = Vec::new();
+    let mut caller_threads: Vec<(u64, std::thread::JoinHandle<()>)> = Vec::new();
     let mut peer_opt = Some(peer);
     let quiet = Duration::from_millis(2);
     ctl.settle(quiet);
@@ -437,17 +437,36 @@ pub fn run_case(case: &Value, trace: &mut Trace) {
             }
             "store" => {
                 let h = handle.clone();
-                caller_threads.push(std::thread::spawn(move || {
+                caller_threads.push((a, std::thread::spawn(move || {
                     CALLER.with(|x| x.set(a));
                     if let Some(h) = h {
                         h.shutdown();
                     }
-                }));
+                })));
+                // positive completion: the caller has stored the flag and stands at its hold point (a loaded machine may need
+                // a while to schedule the new thread; going on before that would run the rest of the schedule -- and wait() --
+                // against a request that has not been made yet)
+                let t0 = Instant::now();
+                let mut g = ctl.g.lock().unwrap();
+                while !g.held_s.contains(&a) && t0.elapsed() < Duration::from_secs(60) {
+                    g = ctl.cv.wait_timeout(g, Duration::from_millis(5)).unwrap().0;
+                }
+                done = g.held_s.contains(&a);
             }
             "shut" => {
-                let mut g = ctl.g.lock().unwrap();
-                g.released_s.push(a);
-                ctl.cv.notify_all();
+                {
+                    let mut g = ctl.g.lock().unwrap();
+                    g.released_s.push(a);
+                    ctl.cv.notify_all();
+                }
+                // positive completion: the caller's request has returned
+                let t0 = Instant::now();
+                while t0.elapsed() < Duration::from_secs(60) {
+                    if caller_threads.iter().filter(|(c, _)| *c == a).all(|(_, t)| t.is_finished()) {
+                        break;
+                    }
+                    std::thread::sleep(Duration::from_millis(1));
+                }
             }
             "peer_close" => {
                 if case["halfclose"].as_bool() == Some(true) {
@@ -513,7 +532,7 @@ pub fn run_case(case: &Value, trace: &mut Trace) {
         g.hold = false;
         ctl.cv.notify_all();
     }
-    for t in caller_threads {
+    for (_, t) in caller_threads {
         let _ = t.join();
     }
     if waiter.is_none() {
